@@ -258,10 +258,14 @@ fn visit_tcp(
             WSCALE => {
                 olayout.push(TcpOption::Ws);
 
-                wscale = Some(data[0]);
+                // a window-scale option with length 2 (or cut short by the end of the option area)
+                // carries no shift count
+                if let Some(&shift) = data.first() {
+                    wscale = Some(shift);
 
-                if data[0] > 14 {
-                    quirks.push(Quirk::ExcessiveWindowScaling);
+                    if shift > 14 {
+                        quirks.push(Quirk::ExcessiveWindowScaling);
+                    }
                 }
             }
             SACK_PERMITTED => {
